@@ -65,6 +65,10 @@ def ser_node(n, toks):
     if k == "vget":
         toks.append(n[1])
         return "←" + n[1] + " "
+    if k == "probe_exec":
+        toks.append("7")
+        toks.append("Ė")
+        return "`7`Ė"
     if k == "brk":
         toks.append("X")
         return "X"
